@@ -102,8 +102,7 @@ Theorem C03_sats_fifo : forall outs rs per_out lft,
          calc_sat_in m 0 (g - out_start 0 outs k) = calc_sat_in rs 0 g) /\
   (forall g, sum_values outs <= g -> calc_sat_in lft 0 (g - sum_values outs) = calc_sat_in rs 0 g).
 Proof.
-  intros outs rs per_out lft H. destruct (split_sats_spec _ _ _ _ H) as [A B]. split; auto.
-  intros k o Hk. destruct (A k o Hk) as (m & M1 & M2 & M3). exists m. unfold out_start. rewrite !N.add_0_l. auto.
+  intros outs rs per_out lft H. destruct (split_sats_spec _ _ _ _ H) as [A B]. split; [exact A | exact B].
 Qed.
 
 (* Non-vacuity of (3): offsets 5, 0, 12, 30 over outputs of 10 and 15 (the second an OP_RETURN): 0 and 5 land
